@@ -8416,6 +8416,11 @@ void SoPlexBase<R>::_ensureRationalLP()
       _rationalLP->setOutstream(spxout);
       _rationalLP->setTolerances(this->tolerances());
 
+      // objective sense and offset are parameters of this class: a new LP takes them over
+      _rationalLP->changeSense(intParam(SoPlexBase<R>::OBJSENSE) == SoPlexBase<R>::OBJSENSE_MAXIMIZE ?
+                               SPxLPRational::MAXIMIZE : SPxLPRational::MINIMIZE);
+      _rationalLP->changeObjOffset(realParam(SoPlexBase<R>::OBJ_OFFSET));
+
       // the range types describe the rows and columns of the rational LP: a new, empty LP has none (they may be left
       // over from a rational LP that was freed when the sync mode was switched to ONLYREAL)
       _rowTypes.clear();
